@@ -128,6 +128,10 @@ def run_job(job):
             return symbolic_step(job, pb)
     for o in ex.explore(run):
         if o.exc is not None:
+            from ..harness import exc_origin
+            if exc_origin(o.exc) == "harness":
+                ob.fail_harness(f"harness raised: {o.exc!r}")
+                continue
             ob.fail_harness(f"transition raised under symbolic execution: {o.exc!r}")
             continue
         r = o.value
